@@ -24,9 +24,7 @@ def c16_compare(case, verdict):
     dev = case.get("dev")
     if isinstance(impl, dict) and "panic" in impl:
         if dev and case.get("in_hyp") is False:
-            # a deviation case outside the hypotheses (S28 / D1 / D2): the provider is built from a set the
-            # property calls inconsistent and `read_pragmatic` panics while indexing jobs — recorded by
-            # extra_evidence, reported in the property's notes, not part of the correspondence
+            # a case outside the hypotheses (S28u only, since the repairs): recorded by extra_evidence
             return {"skipped": True}
         return {"agree": False, "holds": False, "detail": "implementation panicked: " + str(impl["panic"])[:300]}
     agree = _strip(case, impl) == _strip(case, model)
@@ -58,10 +56,10 @@ def c16_nontrivial(case, v):
 
 
 def c16_extra(cases, verdicts):
-    """how the deviation classes (outside the hypotheses) behaved on the real code in this run"""
+    """how the tagged classes (dev = outside the hypotheses: S28u; cls = repaired former deviations) behaved in this run"""
     out = {}
     for c in cases:
-        dev = c.get("dev")
+        dev = c.get("dev") or c.get("cls")
         if not dev:
             continue
         impl = c.get("impl")
@@ -97,11 +95,12 @@ PROP = dict(
         "interpolation ratios are short dyadic numbers: every f64 operation of the code is then exact (asserted: "
         "each printed value has fewer than 45 significant bits; otherwise the case is counted as skipped_inexact)",
         "slice::binary_search is modelled by its contract on strictly increasing keys",
-        "hypotheses made explicit by the theorems and excluded from the oracles (dev-tagged, in_hyp=false streams, "
-        "run on the real code and summarised under deviation_classes_observed): S28 unknown matrix profile name, "
-        "D1 matrix length that is not a square number (incl. errorCodes of another length than the matrix), D2 two matrices "
-        "of one profile with the same u64 timestamp key, D3 unknown-type location together with matrix indices that skip a "
-        "value (its index then lies inside the matrix)",
+        "outside the hypotheses (dev-tagged, in_hyp=false stream, run on the real code and summarised under "
+        "deviation_classes_observed): S28u — a matrix set in which no name is a fleet profile is mapped by list position "
+        "(documented positional behaviour pinned by the repository's fleet_reader_test). The former deviations S28 (name "
+        "mixes), D1 (non-square lengths, error codes length), D2 (equal timestamp keys) and D3 (unknown location index) are "
+        "repaired in /repo (83519b0, 0684041, c805ac8, a68e4cc); their streams and corpus witnesses are ordinary "
+        "in-hypothesis cases now (cls-tagged) and the mutants C16-n..q restore the old behaviour",
     ],
 )
 
@@ -112,8 +111,8 @@ META = dict(
          "answers with the matrix whose (truncated) timestamp equals the query's, with the first / last matrix outside the span, "
          "and in between with the left matrix' distance and the straight line through the two bracketing durations (inside "
          "their hull); sorting + bracket search equals an order-free selection over the unsorted input; every well-formed set "
-         "is accepted and served (well_formed_is_served) and the builder rejects every listed inconsistency class; the pragmatic reader routes a vehicle of profile p on the matrices named p when "
-         "every matrix name is a fleet profile (S28: otherwise positional, witness proved); error codes > 0 give -1 entries; "
+         "is accepted and served (well_formed_is_served) and the builder rejects whatever the specification calls inconsistent (builder_rejects_inconsistent, unconditional); the pragmatic reader routes a vehicle of profile p on the matrices named p when "
+         "every matrix name is a fleet profile (name mixes are rejected; a set with no fleet-profile name is positional — documented behaviour); error codes > 0 give -1 entries; "
          "Euclidean and abstract haversine formulas are symmetric with zero diagonal. Tie: differential run of the real "
          "providers (public constructors and read_pragmatic) against the model and the specification evaluated on the "
          "implementation's own answers.",
